@@ -231,7 +231,7 @@ def stringOf (fragments : List GoString) (fieldParams : List GoString) (filter :
   let filterParams :=
     match filter with
     | some f => [gs "filter=" ++ queryEscape f]
-    | none => if filterLabel ≠ [] then [gs "filter=" ++ queryEscape env.labelBody] else []
+    | none => if filterLabel ≠ [] then [gs "filter=" ++ queryEscape (rewriteBrace env.labelBody)] else []
   let sortParams :=
     if sortingRules.isEmpty then []
     else [gs "sort=" ++ joinWith pct2C (sortingRules.map queryEscape)]
